@@ -62,13 +62,19 @@ pub fn collapse_in_instance(&mut self, Ghost(k): Ghost<(Seq<char>, Seq<Ty>)>, ty
 {{ self.collapse_type_apps(ty) }}
 }}
 """),
+        Fn(file=M, name="free_instance_name", container="TypeMono", as_method_of=TM, ret="r", attrs="#[verifier::exec_allows_no_decreases_clause]",
+           obligation="a new instance is never named like a type of the program, nor like an instance named before (fix 2b: `struct Box__int32` next to `Box[int32]`)",
+           rewrites=[("TastIdent::new(&name)", "tast_ident_new(name.as_str())", 1), (re.compile(r"!self\.map\.values\(\)\.any\(\|n\| \*n == ident\)"), "!self.map.has_name(&ident)", 1),
+                     ("name.push('_');", "name = push_underscore(name);", 1)],
+           contract="ensures !self.known().contains(r.0@), !self.map.names().contains(r.0@),",
+           loop_fn=lambda k, header, kw: "invariant true,"),
         Fn(file=M, name="ensure_instance", container="TypeMono", as_method_of=TM, ret="r", attrs=BOTH,
            obligation="the instance's substitution binds each parameter of the generic definition to exactly the corresponding instantiation argument; "
                       "arity panic unreachable; types handed to collapse_type_apps are well formed",
            rewrites=[("args: &[Ty]", "args: &Vec<Ty>"),
                      ("let key = (name.to_string(), args.to_vec());", "let key = key_of(name, args);"),
                      ("return u.clone();", "return ident_clone(u);"),
-                     ("TastIdent::new(&rt_msg())", "tast_ident_new(rt_msg().as_str())"), ("TastIdent::new(name)", "tast_ident_new(name)"),
+                     ("TastIdent::new(&rt_msg())", "tast_ident_new(rt_msg().as_str())", "*"), ("TastIdent::new(name)", "tast_ident_new(name)"),
                      (re.compile(r"self\.map\.insert\(key\.clone\(\), new_name\.clone\(\)\);"), "self.map.insert(key_clone(&key), ident_clone(&new_name));", "*"),
                      (re.compile(r"self\.map\.insert\(key, new_name\.clone\(\)\);"), "self.map.insert(key, ident_clone(&new_name));", "*"),
                      # C04: every recursive descent made while building an instance goes through a wrapper that REQUIRES the
